@@ -178,6 +178,7 @@ def monitor_a(ctx, rng):
     for i, (r, kw, _) in enumerate(jobs):
         if ctx.mine(i):
             run_a(ctx, rng, r, kw, nin * 2)
+    monitor_a_slots(ctx, rng)
     for i in range(n):
         g = Gen(rng, maxdepth=rng.choice([1, 2, 2, 3]), fragment="core")
         try:
@@ -187,6 +188,52 @@ def monitor_a(ctx, rng):
         run_a(ctx, rng, r, dict(g.kw), nin)
         if i < 1 and ctx.index < 3:
             ctx.sample({"monitor": "a", "recipe": r})
+
+
+def monitor_a_slots(ctx, rng):
+    """every parameter slot of every class fed from a field parsed just before it (the way real formats carry lengths, counts,
+    selectors, offsets, keys and amounts), for every value of that field"""
+    from .c05 import slots
+    heads = [("u8", B, [bytes([x]) for x in range(256)]), ("s8", ["name", "Int8sb"], [bytes([x]) for x in range(256)]),
+             ("varint", ["name", "VarInt"], [b"\x00", b"\x01", b"\x7f", b"\x80\x01", b"\xff\x7f", b"\xff\xff\x03"])]       # up to 65535: larger counts only cost time and memory
+    exprs = [("n", ["this", "n"]), ("n-3", ["bin", "-", ["this", "n"], 3]), ("n*n", ["bin", "*", ["this", "n"], ["this", "n"]]), ("n%5", ["bin", "%", ["this", "n"], 5])]
+    tails = [b"", b"\x00" * 40, bytes(range(1, 41)), b"\xff" * 40]
+    k = 0
+    for hname, head, hvals in heads:
+        for ename, e in exprs:
+            for label, x in slots(e):
+                k += 1
+                if not ctx.mine(k):
+                    continue
+                # not valid parameterisations: the expression sits one structure deeper than the field; a member selector /
+                # predicate / checksum input that is an arbitrary integer; an XOR key outside 0..255
+                if label in ("Struct/Bytes.length", "FocusedSeq.parsebuildfrom", "Union.parsefrom", "RepeatUntil.predicate", "Checksum.bytesfunc", "AlignedStruct.modulus"):
+                    continue
+                if (hname == "varint" or label == "LazyArray.count") and ename == "n*n":
+                    continue          # up to 2^32 elements / table entries: resource use, not a verdict
+                if label == "ProcessXor.key" and not (hname == "u8" and ename in ("n", "n%5")):
+                    continue
+                for r in (["Struct", [["n", head], ["x", x], ["t", B]]], ["Sequence", [["n", head], [None, ["Prefixed", B, x, False]]]]):
+                    try:
+                        d = mk(r)
+                    except Exception:
+                        ctx.count("recipe_not_constructible")
+                        continue
+                    rejected = 0
+                    for hv in hvals:
+                        for ti, tail in enumerate(tails):
+                            data = hv + (tail if r[0] == "Struct" else bytes([len(tail)]) + tail)
+                            res = parse_guarded(ctx, d, r, data, {}, {"monitor": "a", "recipe": r, "kw": {}, "input": tag(data)}, "bytesio" if ti % 2 else "traced")
+                            if res is None:
+                                break
+                            rejected += res == "rejected"
+                        else:
+                            continue
+                        break
+                    ctx.count("a_slot_inputs_rejected", rejected)
+                    if rejected:
+                        ctx.nontrivial("slot", label, hname, ename, r[0])
+                ctx.count("a_slot_constructs")
 
 
 def run_a(ctx, rng, r, kw, nin):
